@@ -307,6 +307,12 @@ func (g *gm) call(c *ast.CallExpr) string {
 					return "(.call \"make\" [" + g.expr(c.Args[1]) + "])"
 				}
 			}
+			// make(T, n) with `type T []E` declared in the unit's declaration files
+			if len(c.Args) == 2 {
+				if id, ok := c.Args[0].(*ast.Ident); ok && g.namedSlice(id.Name) {
+					return "(.call \"make\" [" + g.expr(c.Args[1]) + "])"
+				}
+			}
 			return "(.call " + g.bad("?make", c) + " [])"
 		case "panic":
 			return "(.call \"panic\" " + g.args(c) + ")"
@@ -877,6 +883,24 @@ func (g *gm) ptrSliceField(sx *ast.SelectorExpr) bool {
 	return false
 }
 
+// namedSlice: `type <name> []E` in the unit's declaration files.
+func (g *gm) namedSlice(name string) bool {
+	for _, f := range g.cfiles {
+		for _, d := range f.f.Decls {
+			if gd, ok := d.(*ast.GenDecl); ok {
+				for _, sp := range gd.Specs {
+					if ts, ok := sp.(*ast.TypeSpec); ok && ts.Name.Name == name {
+						if at, ok := ts.Type.(*ast.ArrayType); ok && at.Len == nil {
+							return true
+						}
+					}
+				}
+			}
+		}
+	}
+	return false
+}
+
 // gmPtrSlices: per unit, fields that hold slices of POINTERS to records (protobuf `repeated` message fields).
 var gmPtrSlices = map[string]map[string]bool{"GoFSM": {"Partitions": true}}
 
@@ -947,6 +971,10 @@ func genGoMiniAll() []*leanFile {
 			"Server.applyResumeStream", "Server.applyCreateConsumerGroup", "Server.applyJoinConsumerGroup", "Server.applyLeaveConsumerGroup",
 			"Server.applyChangeConsumerGroupCoordinator"}},
 		[]string{sv + "fsm.go", "server/protocol/internal.pb.go"})})
+	out = append(out, &leanFile{name: "GoRecover", raw: genGoMini("GoRecover",
+		[]string{cl + "segment.go"},
+		map[string][]string{cl + "segment.go": {"segment.indexMatchesLog", "segment.trimLog"}},
+		clConsts)})
 	en := "server/encryption/"
 	out = append(out, &leanFile{name: "GoSeal", raw: genGoMini("GoSeal",
 		[]string{en + "localkey_handler.go"},
